@@ -589,7 +589,7 @@ def extract_inputs(model, inputs, max_elems=4096):
     return out
 
 
-def verify_contract(loader, registry, con, dim_override=None, observed=False, inline=(), max_paths=400, timeout_ms=20000, cases=None):
+def verify_contract(loader, registry, con, dim_override=None, observed=False, inline=(), max_paths=3000, timeout_ms=20000, cases=None):
     """Symbolically execute the real function under its contract; return a FunctionReport."""
     from .interp import Interp, BoundMethod, Closure
 
